@@ -89,6 +89,15 @@ def run(rep):
             else:
                 for k, rx in flds.items():
                     ok_f = ok_f and all_match(s.fields.get(k, []), rx)
+            # ... and it is reached: from the true result no path leaves the handler without the notification,
+            # unless the owner's connection is gone
+            sw = [u for u in b.live_blocks() if b.blocks[u]["t"]["k"] == "switch" and (b.switch_guard(u) or {}).get("call") is not None and mir.short_fn(b.switch_guard(u)["call"].callee) == pred]
+            okr = len(sw) == 1
+            if okr:
+                tv = [v for v in set(b.succ(sw[0])) if b.edge_label(sw[0], v) == [True]]
+                gone = b.edges_matching([r"^None=discr\(%s\)$" % OWNER])
+                okr = len(tv) == 1 and not (set(b.exits()) & b.reachable(tv[0], without_nodes={s.bb}, without_edges=gone))
+            rep.check(okr, "C04-R2", b.def_, "notify-reached:%s" % msg, "when %s reports a 0<->1 transition every path must reach the owner notification (unless the owner's connection is gone)" % pred, line=s.line, detail={})
             rep.check(ok_pred and ok_tgt and ok_f, "C04-R2", b.def_, "notify:%s" % msg,
                       "the owner notification must be sent to the service owner exactly on the true result of %s for the requested service, with serial None and the request's cookie/event" % pred, line=s.line,
                       detail={"guards": g, "target": sorted(s.target), "fields": {k: sorted(v) for k, v in s.fields.items()}})
@@ -104,6 +113,12 @@ def run(rep):
             ok = (any(re.search(r"^True=%s\(%s, " % (re.escape(pred), svc), x) for x in g)
                   and all_match(b.describe(c.args[1]), r"^Object::conn_id\(self\.objs\[self\.svc_uuids\[svc_cookie\]\.0\.0\.uuid\]\)$")
                   and all(all_match(b.describe(a), "^%s$" % n) for a, n in zip(c.args[2:], rest)))
+            sw = [u for u in b.live_blocks() if b.blocks[u]["t"]["k"] == "switch" and (b.switch_guard(u) or {}).get("call") is not None and mir.short_fn(b.switch_guard(u)["call"].callee) == pred]
+            okr = len(sw) == 1
+            if okr:
+                tv = [v for v in set(b.succ(sw[0])) if b.edge_label(sw[0], v) == [True]]
+                okr = len(tv) == 1 and not (set(b.exits()) & b.reachable(tv[0], without_nodes={c.bb}))
+            rep.check(okr, "C04-R2", b.def_, "queued-reached:%s" % push, "when %s reports the last subscriber gone every path must queue the owner notification" % pred, line=c.line, detail={})
             rep.check(ok, "C04-R2", b.def_, "queued:%s" % push, "the queued owner notification must be control-dependent on the true result of %s and name the owner, the service and the event" % pred, line=c.line, detail={"guards": g})
     pl = M["process_loop_result"]
     for (msg, pop, flds) in [("UnsubscribeEvent", "pop_unsubscribe_event", {"service_cookie": ".0.1", "event": ".0.2"}), ("UnsubscribeAllEvents", "pop_unsubscribe_all_events", {"service_cookie": ".0.1", "serial": None}),
